@@ -10,6 +10,7 @@ SCOPES = {
     'C18': ['src/Geohash.cpp', 'GeographicLib/Geohash.hpp', 'src/GARS.cpp', 'GeographicLib/GARS.hpp',
             'src/Georef.cpp', 'GeographicLib/Georef.hpp', 'src/OSGB.cpp', 'GeographicLib/OSGB.hpp'],
     'C20': ['src/Geoid.cpp', 'GeographicLib/Geoid.hpp'],
+    'C17': ['GeographicLib/NearestNeighbor.hpp'],
 }
 # instance floors (about 80% of the counts confirmed on the verified tree)
 FLOORS = {
@@ -19,6 +20,7 @@ FLOORS = {
     'C18': dict(throws=24, x3fns=9, x4throws=4),
     'C20': dict(throws=14, x3fns=0, x4throws=0),
     'C13': dict(throws=200, x3fns=200, x4throws=15),
+    'C17': dict(throws=12, x3fns=2, x4throws=0),
 }
 
 
@@ -230,7 +232,13 @@ def _c17(ctx):
                                                               'Intersect')], 'M4c')
     r.floor('client functions with solver calls', nf, 7)
     r.floor('solver / line call sites', nc, 11)
-    return [r]
+    # NearestNeighbor (header-only; instantiated by fixtures/nn_inst.cpp): error clauses of Load/Search
+    from .rules import exc
+    nn = _exc_rules(ctx, 'C17', with_lookup=False)
+    r6, n6 = exc.rule_X6(ctx, SCOPES['C17'])
+    r6.floor('loops in NearestNeighbor', n6, 12)
+    x3m = exc.rule_X3m(ctx, {NSP + 'NearestNeighbor::Initialize', NSP + 'NearestNeighbor::Load'})
+    return [r] + nn + [r6, x3m]
 
 
 def _c20(ctx):
